@@ -18,7 +18,7 @@ from sim.world import Run
 
 ID = "C42"
 LEVEL = "exploration"
-RUNS = {"quick": 8000, "thorough": 500000}
+RUNS = {"quick": 40000, "thorough": 500000}
 BUDGET = {"quick": 100.0, "thorough": 3300.0}
 RULE = ("one run = one BinarySensor or Switch with seeded reset_after / context_timeout and a seeded on/off telegram history "
         "whose gaps are drawn relative to the configured time (0, fraction, exactly, just above, far above); non-trivial = "
@@ -136,7 +136,7 @@ def run(plan: dict[str, Any]) -> dict[str, Any]:
                 nontrivial = True
                 continue   # timer restarted by a later 'on' (ties within 1e-5 unjudged)
             t_reset = tg["t"] + r
-            off_between = [x for x in tgs if x["v"] == 0 and tg["t"] <= x["t"] <= t_reset and tgs.index(x) > i]
+            off_between = [x for j, x in enumerate(tgs) if x["v"] == 0 and tg["t"] <= x["t"] <= t_reset and j > i]
             if kind == "switch_reset":
                 # the switch enqueues its 'off' at exactly that instant
                 if not any(abs((p - t0) - t_reset) < eps for p in off_puts):
